@@ -10,6 +10,9 @@ TRUST = ("TLC explores the bounded model exhaustively; the code is bound by exec
 
 FRAME_TECH = "TLA+ spec (Frame/FrameOps/GroupOps) + TLC exhaustive enumeration of frames x arguments + monitor-style trace validation of real DataFrame calls"
 CHECKS = {
+ "C09": dict(engine="CombineOps",
+   text="CombineOps.tla: rbind / select / unselect / rename / colnames / cbind / update / modify as constructive operators plus the Untouched and RbindRowsOK predicates; CombineOpsMC enumerates base frames, every argument record (all select orders, all injective rename maps and colnames assignments incl. permutations, scalar/vector/callable modify values, clashing/new/broadcast second operands, 2-3 rbind operands with overlapping, disjoint and empty column sets) and model-checks the product; cases are executed on the real DataFrame and judged by the CombineOpsTrace monitor.",
+   design="§3 C09", technique="TLA+ spec (CombineOps) + TLC exhaustive enumeration + monitor-style trace validation of real calls"),
  "C05": dict(engine="JoinOps",
    text="JoinOps.tla: first-match left/inner/semi/anti joins (constructive) and the FullJoinOK predicate; JoinOpsMC model-checks LeftKeepsAll, SemiAntiPartition, InnerIsMatchedSubset, NAnevermatch on every pair of operand frames in the bound; seeded pairs (all empty/single-row combinations included) are executed with all five joins, same-name and renamed keys, mixed int/float key dtypes, nine payload dtypes for NA filling, and judged by the JoinOpsTrace monitor.",
    design="§3 C05", technique="TLA+ spec (JoinOps) + TLC exhaustive model check of the operand-pair space + monitor-style trace validation of real join calls"),
@@ -29,6 +32,7 @@ CHECKS = {
    design="§3 C11", technique="TLA+ spec (VectorOps) + TLC exhaustive enumeration + monitor-style trace validation of real calls"),
 }
 ENGINES = [
+ dict(name="CombineOps", path="spec/CombineOps.tla", serves_properties=["C09"], kind_free_text="TLA+ CombineOps operators/predicates + CombineOpsMC + CombineOpsTrace monitor (TLC)"),
  dict(name="JoinOps", path="spec/JoinOps.tla", serves_properties=["C05"], kind_free_text="TLA+ JoinOps operators/predicates + JoinOpsMC + JoinOpsTrace monitor (TLC)"),
  dict(name="FrameOps", path="spec/FrameOps.tla", serves_properties=["C02", "C03"], kind_free_text="TLA+ Frame/FrameOps operators + FrameOpsMC generator + FrameOpsTrace monitor (TLC)"),
  dict(name="GroupOps", path="spec/GroupOps.tla", serves_properties=["C04"], kind_free_text="TLA+ GroupOps predicates + FrameOpsMC(Which=group) + GroupOpsTrace monitor (TLC)"),
